@@ -318,11 +318,15 @@ def run(prog, rep, tier, repo):
         rich = False
         col0 = False
         first = False
+        seen = {'first': False, 'col0': False, 'rich': False}       # was the store of that kind found at all (recognition)
         for s in sts:
             idx = s.target[2][1]
-            v = s.value
+            v = prog.inline_closure_calls(s.value)          # a step kept in a local closure (`extrapolate(fine, coarse, m)`) is read through
             if tag(idx) == 'agg' and len(idx[3]) == 2:
                 i0, i1 = idx[3]
+                kind_ = 'first' if (tag(i0) == 'const' and tag(i1) == 'const' and (i0[2], i1[2]) == (0, 0)) else \
+                    ('col0' if (tag(i1) == 'const' and i1[2] == 0) else 'rich')
+                seen[kind_] = True
                 if tag(i0) == 'const' and tag(i1) == 'const' and (i0[2], i1[2]) == (0, 0):
                     # (b-a)/2 * (f(a) + f(b))
                     half = ('bin', 'Div', ('bin', 'Sub', b, a, 'f64'), ('const', 'f64', 2.0), 'f64')
@@ -350,12 +354,13 @@ def run(prog, rep, tier, repo):
                                 rich = pconst(psub(poly(a0[0]), poly(i0))) == 0 and pconst(psub(poly(a0[1]), poly(i1))) == -1 and \
                                     pconst(psub(poly(a1[0]), poly(i0))) == -1 and pconst(psub(poly(a1[1]), poly(i1))) == -1 and \
                                     pconst(psub(poly(den[2][2][1][2] if tag(den[2][2][1]) == 'cast' else den[2][2][1]), poly(i1))) == 0
+        unread_r = []
         if not first:
-            problems.append('R[0,0] is not (b-a)/2 * (f(a) + f(b))')
+            (problems if seen['first'] else unread_r).append('R[0,0] is not (b-a)/2 * (f(a) + f(b))')
         if not col0:
-            problems.append('R[n,0] is not R[n-1,0]/2 + h_n * sum f(odd nodes)')
+            (problems if seen['col0'] else unread_r).append('R[n,0] is not R[n-1,0]/2 + h_n * sum f(odd nodes)')
         if not rich:
-            problems.append('Richardson step is not R[n,m-1] + (R[n,m-1] - R[n-1,m-1])/(4^m - 1)')
+            (problems if seen['rich'] else unread_r).append('Richardson step is not R[n,m-1] + (R[n,m-1] - R[n-1,m-1])/(4^m - 1)')
         # odd-node sum: a + (2k-1)*hn for k in 1..=2^(n-1), hn = (b-a)/2^n
         okodd = False
         for b_ in pdb.closures_of(f.body.key):
@@ -370,8 +375,11 @@ def run(prog, rep, tier, repo):
                         okodd = True
         if not okodd:
             problems.append('refinement nodes are not a + (2k-1) h_n')
-        (rep.viol if problems else rep.ok)('romberg-shape', key, '; '.join(problems) if problems else
-                                           'trapezoid refinement on odd nodes + Richardson factors 4^m - 1', site_of(f.body))
+        if unread_r and not problems:
+            rep.undecided('romberg-shape', key, 'tableau stores not found as 2-D index stores: ' + '; '.join(unread_r), site_of(f.body), proof=False)
+        else:
+            (rep.viol if problems else rep.ok)('romberg-shape', key, '; '.join(problems) if problems else
+                                               'trapezoid refinement on odd nodes + Richardson factors 4^m - 1', site_of(f.body))
     rep.floor('romberg-shape', 1, 'romberg')
 
     # ---- D4b early stop: compares two extrapolated diagonal entries, the returned one being the deeper; never at depth 1, where the
